@@ -5,34 +5,34 @@
     that drains its inputs has an unread incoming message — for any mix of ticking and
     event-driven components on direct connections, whatever the send times.
 
-    On the code as it is, the statement is FALSE ([c09_refuted], reproduced on the real
-    code by the harness and listed as known finding F-C09-1): [TickScheduler.TickNow]
-    drops a request made at the instant whose tick event was already handled.
-    For the repaired guard ([GuardNew]: such a request schedules the next clock edge)
-    clause (1) is proved for every topology: a connection is analysed in an arbitrary
-    environment ([cstep]: any sends / retrievals on its ports by whatever components,
-    any timing).  Clause (2) does not involve TickNow (NotifyRecv uses TickLater /
-    ScheduleWakeNow) and is proved for the code as it is, again for a component in an
-    arbitrary environment ([dstep]).  What the two abstract systems do NOT give is a
-    single theorem about the executable whole-simulation model of Model.v: they share
-    its tick / port / scheduler definitions, but the statement that every run of the
-    scripted world projects onto [cstep] / [dstep] runs is not proved (it is exercised
-    by the exact tie and the quiescent-state scan on every run) — hence "_partial". *)
+    The code in /repo carries the repaired tick guard ([GuardNew], fix commit f717b29c:
+    a TickNow in the instant whose tick event already ran schedules the next clock
+    edge).  For it, clause (1) is proved for every topology: a connection is analysed in
+    an arbitrary environment ([cstep]: any sends / retrievals on its ports by whatever
+    components, any timing).  Clause (2) does not involve TickNow (NotifyRecv uses
+    TickLater / ScheduleWakeNow) and is proved for a component in an arbitrary
+    environment ([dstep]).  Before the fix the statement was FALSE: [c09_old_refuted]
+    and [c09_ticknow_old_refuted] keep the witness for the guard as it was
+    ([GuardOld]: drop whenever nextTickTime >= now).
+    Not a theorem: that every run of the executable whole-simulation model of Model.v
+    projects onto [cstep] / [dstep] runs (the three share the tick / port / scheduler
+    definitions; the executable model is tied to the real code by exact trace equality
+    and scanned at quiescence on every run). *)
 From Akita Require Import Lib.Base Lib.Fifo Lib.Port Lib.Conn C10.Model C10.Exec C10.Proofs
      C09.Model C09.Proofs.
 Local Open Scope N_scope.
 
-(** REFUTED on the current code: a concrete topology (two connections bridged by an
+(** Regression (guard before the fix): a concrete topology (two connections bridged by an
     event-driven relay, built like the harness builds it) whose run under the guard as
     coded ends — both event queues empty — with a deliverable message stranded in the
     relay's outgoing port (port 3 holds message 1002 for port "6", which has room). *)
-Theorem c09_refuted :
+Theorem c09_old_refuted :
   exists w0 : world, w_guard w0 = GuardOld /\
     let '(tr, w, done) := run 100 w0 [] in
     done = true /\ w_prim w = [] /\ w_sec w = [] /\
     deliverable_head w 3 = true /\ quiescent_clean w = false.
 Proof. exists (witness_world GuardOld). split; [reflexivity|exact witness_old_stranded]. Qed.
-Print Assumptions c09_refuted.
+Print Assumptions c09_old_refuted.
 
 (** the same topology under the repaired guard ends clean *)
 Theorem c09_witness_repaired_clean :
@@ -41,9 +41,9 @@ Theorem c09_witness_repaired_clean :
 Proof. exact witness_new_clean. Qed.
 Print Assumptions c09_witness_repaired_clean.
 
-(** Scheduler level, guard as coded: TickNow at T, the tick at T is handled, a second
+(** Regression, scheduler level, guard before the fix: TickNow at T, the tick at T is handled, a second
     TickNow at T is dropped with nothing pending; the repaired guard schedules T+period. *)
-Theorem c09_ticknow_old_loses_request :
+Theorem c09_ticknow_old_refuted :
   let s0 := mk_sched false 0 1000 true None in
   let '(s1, ev1) := tick_now GuardOld 2000 s0 in
   let s2 := mark_handled s1 2000 in
@@ -51,7 +51,7 @@ Theorem c09_ticknow_old_loses_request :
   let '(s3, ev3) := tick_now GuardOld 2000 s2 in
   ev1 = Some 2000 /\ q2 = [] /\ ev3 = None /\ snd (tick_now GuardNew 2000 s2) = Some 3000.
 Proof. exact tick_now_old_loses_request. Qed.
-Print Assumptions c09_ticknow_old_loses_request.
+Print Assumptions c09_ticknow_old_refuted.
 
 (** Scheduler level, repaired guard: in every state satisfying the scheduler invariant
     (pending events not in the past; the latest scheduled tick is pending or was
@@ -74,7 +74,7 @@ Print Assumptions c09_request_leaves_tick_pending.
     of its tick events, clock advances and extra tick requests —
       a deliverable outgoing head  ==>  a tick was requested since the last tick started
       a tick was requested since the last tick started  ==>  a tick event is pending. *)
-Theorem c09_inv_partial : forall caps period (h : list cact) st, 1 <= period ->
+Theorem c09_inv : forall caps period (h : list cact) st, 1 <= period ->
   csteps GuardNew (cinit caps period) h = Some st ->
   (some_deliverable (c_ports (cs_conn st)) -> cs_dirty st = true) /\
   (cs_dirty st = true -> cs_q st <> []).
@@ -82,23 +82,23 @@ Proof.
   intros caps period h st Hp H.
   destruct (csteps_inv h _ st (cinit_inv caps period Hp) H) as (_ & Hd & Hl). split; assumption.
 Qed.
-Print Assumptions c09_inv_partial.
+Print Assumptions c09_inv.
 
 (** Clause (1) at queue exhaustion, repaired guard, every topology / send pattern /
     capacity: when no tick event of the connection is pending, none of its ports holds
     an outgoing message whose destination has room. *)
-Theorem c09_quiescent_clean_partial : forall caps period (h : list cact) st, 1 <= period ->
+Theorem c09_quiescent_clean : forall caps period (h : list cact) st, 1 <= period ->
   csteps GuardNew (cinit caps period) h = Some st -> cs_q st = [] ->
   forall k, deliv (c_ports (cs_conn st)) k = false.
 Proof.
   intros caps period h st Hp H Hq k.
-  destruct (c09_inv_partial caps period h st Hp H) as (Hl & Hd).
+  destruct (c09_inv caps period h st Hp H) as (Hl & Hd).
   destruct (deliv (c_ports (cs_conn st)) k) eqn:E; [|reflexivity].
   exfalso. apply Hd; [apply Hl; exists k; exact E|exact Hq].
 Qed.
-Print Assumptions c09_quiescent_clean_partial.
+Print Assumptions c09_quiescent_clean.
 
-(** Clause (2), code as it is: a component that drains its inputs (ticking: takes at
+(** Clause (2): a component that drains its inputs (ticking: takes at
     least one message from every non-empty input per tick; event-driven: empties every
     input per wake-up), in an arbitrary environment (any deliveries into its ports, any
     other notifications, any timing, whatever else its activations do):
